@@ -125,7 +125,7 @@ func c08parse(line string) (c08desc, bool) {
 	}
 	if !c08in(d.sig, "none", "junk", "flip") {
 		p := strings.Split(d.sig, "/")
-		if len(p) != 3 || !c08isKey(p[0]) || !c08in(p[1], "cur", "stale", "foreign") || !c08isName(p[2]) {
+		if len(p) != 3 || !c08isKey(p[0]) || !c08in(p[1], "cur", "stale", "foreign", "zero") || !c08isName(p[2]) {
 			ok = false
 		}
 	}
@@ -226,6 +226,8 @@ func (w *c08world) proof(d c08desc, cur, stale, lifted []byte) ([]byte, bool, er
 			return nil, false, errors.New("no stale nonce collected")
 		}
 		nonce = stale
+	case "zero":
+		nonce = make([]byte, c08nonceSize)
 	default:
 		nonce = c08rand(c08nonceSize)
 	}
